@@ -158,6 +158,12 @@ impl<'s> Cx<'s> {
         v["sig_end"] = json!(br(sig.span()).1);
         v["sig_text"] = json!(self.text(br(sig.span()).0, br(sig.span()).1));
         v["has_self"] = json!(sig.receiver().is_some());
+        v["fn_generics"] = json!(if sig.generics.params.is_empty() { String::new() } else {
+            let (a, b) = br(sig.generics.params.span()); self.text(a, b).to_string() });
+        v["inputs"] = json!(if sig.inputs.is_empty() { String::new() } else {
+            let (a, b) = br(sig.inputs.span()); self.text(a, b).to_string() });
+        v["output"] = json!(match &sig.output { syn::ReturnType::Default => String::new(), syn::ReturnType::Type(_, t) => {
+            let (a, b) = br(t.span()); self.text(a, b).to_string() } });
         v["parent"] = json!(parent);
         if let (Some(vis), false) = (vis, in_trait_impl) {
             self.vis_edit(vis, br(sig.span()).0);
@@ -277,6 +283,9 @@ impl<'s> Cx<'s> {
                 v["base"] = json!(base);
                 v["trait"] = json!(trait_s);
                 v["header"] = json!(norm(self.text(v["core_start"].as_u64().unwrap() as usize, bo)));
+                v["impl_generics"] = json!(if im.generics.params.is_empty() { String::new() } else {
+                    let (a, b) = br(im.generics.params.span()); self.text(a, b).to_string() });
+                v["self_ty_text"] = json!(self.text(ts, te));
                 let idx = self.items.len();
                 self.items.push(v);
                 let mprefix = match &trait_s {
